@@ -423,6 +423,7 @@ def pad_heap(n):
 
 def main():
     spec = json.loads(sys.stdin.read())
+    sys.stdout = sys.stderr   # records go to fd 1 with os.write; anything ppci prints must not mix in
     keep = pad_heap(spec["pad"])
     sys.path.insert(0, spec["repo"])
     import ppci
